@@ -98,6 +98,12 @@ func (r *reassembler) process(first, last uint16, more bool, vv buffer.Vectorise
 	if r.deleted < len(r.holes) {
 		return buffer.VectorisedView{}, false, consumed, nil
 	}
+	if r.heap.Len() == 0 {
+		// A concurrent goroutine has already reassembled the packet and emptied
+		// the heap, but has not marked the reassembler as done yet (that happens
+		// in Fragmentation.release, outside r.mu). There is nothing left to do.
+		return buffer.VectorisedView{}, false, consumed, nil
+	}
 	res, err := r.heap.reassemble()
 	if err != nil {
 		// Inconsistent fragments (e.g. zero-length ones, or a non-final fragment
